@@ -502,7 +502,11 @@ def outputColumnsF (c : Cat) : Nat → Ctes → Node → Res (List Column × Cte
   | fuel + 1, ctes, node => do
     -- sourceTables
     let list : List Node ← (match node.kind with
-      | "DeleteStmt" | "InsertStmt" => pure [node.get "Relation"]
+      | "InsertStmt" => pure [node.get "Relation"]
+      | "DeleteStmt" =>
+        -- the relations named in USING follow the deleted-from relation (fix 499ff34)
+        pure ([node.get "Relation"] ++ (if (node.get "UsingClause").isNull then [] else
+          (node.get "UsingClause").search (fun n => n.isKind "RangeVar" || n.isKind "RangeSubselect")))
       | "SelectStmt" => pure ((node.get "FromClause").search (fun n => n.isKind "RangeVar" || n.isKind "RangeSubselect"))
       | "TruncateStmt" => pure ((node.get "Relations").search (·.isKind "RangeVar"))
       | "UpdateStmt" =>
@@ -599,7 +603,10 @@ def outputColumns (c : Cat) (ctes : Ctes) (node : Node) : Res (List Column × Ct
 /-- sourceTables alone (for expand) = the table list the same code computes -/
 def sourceTables (c : Cat) (ctes : Ctes) (node : Node) : Res (List Table × Ctes) := do
   let list : List Node ← (match node.kind with
-    | "DeleteStmt" | "InsertStmt" => pure [node.get "Relation"]
+    | "InsertStmt" => pure [node.get "Relation"]
+    | "DeleteStmt" =>
+      pure ([node.get "Relation"] ++ (if (node.get "UsingClause").isNull then [] else
+        (node.get "UsingClause").search (fun n => n.isKind "RangeVar" || n.isKind "RangeSubselect")))
     | "SelectStmt" => pure ((node.get "FromClause").search (fun n => n.isKind "RangeVar" || n.isKind "RangeSubselect"))
     | "TruncateStmt" => pure ((node.get "Relations").search (·.isKind "RangeVar"))
     | "UpdateStmt" =>
